@@ -168,6 +168,54 @@ Theorem C11_open_answered_class3_refuted :
 Proof. exact C11_open_answered_class3_refuted_pf. Qed.
 Print Assumptions C11_open_answered_class3_refuted.
 
+(* ---- the 5 s negotiation timers ----
+   `timers` is the FIFO of armed timers (all have the same duration, so arming order is expiry order).
+   Only a handshake event of the peer arms a timer, only `Timer p` takes one away, exactly one, and a
+   timer is never disarmed: every armed timer fires once. *)
+Theorem C11_timers_fire_once :
+  forall (c : cfg) (s : st) (o : op) (s' : st) (ev : list uev) (cl : list call),
+    step c s o = Some (s', ev, cl) -> timers_spec s o s'.
+Proof. exact timers_step. Qed.
+Print Assumptions C11_timers_fire_once.
+
+(* an attempt that waits for the remote's substream (outbound half open, no inbound substream yet) always
+   has a timer armed: the wait is bounded *)
+Theorem C11_waiting_attempt_has_timer :
+  forall (c : cfg) (s : st) (p : peer),
+    reachable c s -> waiting (ps s p) = true -> existsb (N.eqb p) (timers s) = true.
+Proof. intros c s p R. apply (WT_reachable c s R). Qed.
+Print Assumptions C11_waiting_attempt_has_timer.
+
+(* the outcome of a fired timer: nothing at all unless the peer is in that waiting state (then
+   on_timer: OpenFailure(Rejected), force_close, PeerState::Closed) *)
+Theorem C11_timer_only_cancels_waiting :
+  forall (c : cfg) (s : st) (p : peer) (s' : st) (ev : list uev) (cl : list call),
+    waiting (ps s p) = false -> step c s (Timer p) = Some (s', ev, cl) ->
+    ev = [] /\ cl = [] /\ ps s' = ps s /\ tasks s' = tasks s /\ hopen s' = hopen s.
+Proof. exact timer_only_cancels_waiting. Qed.
+Print Assumptions C11_timer_only_cancels_waiting.
+
+(* in particular no timer, however old, touches an open stream *)
+Theorem C11_no_stale_timer_kill :
+  forall (c : cfg) (s : st) (p : peer) (k : N) (s' : st) (ev : list uev) (cl : list call),
+    ps s p = Some (Open k) -> step c s (Timer p) = Some (s', ev, cl) ->
+    ev = [] /\ cl = [] /\ ps s' = ps s /\ tasks s' = tasks s /\ hopen s' = hopen s.
+Proof. exact no_stale_timer_kill. Qed.
+Print Assumptions C11_no_stale_timer_kill.
+
+(* Observation: a timer armed for a finished attempt is still armed when the next attempt of the same
+   peer reaches the waiting state, and cancels it early (OpenFailure, force_close of the connection)
+   while that attempt's own timer stays armed. Not a violation of the property text (the request is
+   answered), reported with the findings. *)
+Theorem C11_stale_timer_cancels_newer_attempt_refuted :
+  exists s1 s2 s3 ev cl,
+    exec cfg_wt init w_stale_pre = Some s1 /\ ps s1 0 = Some (Closed None) /\ timers s1 = [0] /\
+    exec cfg_wt s1 w_stale_post = Some s2 /\ waiting (ps s2 0) = true /\ timers s2 = [0; 0] /\
+    step cfg_wt s2 (Timer 0) = Some (s3, ev, cl) /\ ev = [UFail 0 E_REJECTED] /\ cl = [CForce 0] /\
+    timers s3 = [0].
+Proof. exact C11_stale_timer_cancels_newer_attempt_refuted_pf. Qed.
+Print Assumptions C11_stale_timer_cancels_newer_attempt_refuted.
+
 (* non-vacuity: a prompt history that opens a stream and closes it *)
 Example C11_notification_dropped_after_close :
   events (fst (run cfg_w init (open_by_user ++ [Notify 0; NotifyDie 0 false]))) =
